@@ -238,8 +238,9 @@ psf_get_filelen (SF_PRIVATE *psf)
 			break ;
 
 		case SFM_READ :
-			if (psf->fileoffset > 0 && psf->filelength > 0)
-				filelen = psf->filelength ;
+			/* An embedded file does not include what lies in front of it. */
+			if (psf->fileoffset > 0)
+				filelen = (psf->filelength > 0) ? psf->filelength : filelen - psf->fileoffset ;
 			break ;
 
 		case SFM_RDWR :
@@ -750,8 +751,9 @@ psf_get_filelen (SF_PRIVATE *psf)
 			break ;
 
 		case SFM_READ :
-			if (psf->fileoffset > 0 && psf->filelength > 0)
-				filelen = psf->filelength ;
+			/* An embedded file does not include what lies in front of it. */
+			if (psf->fileoffset > 0)
+				filelen = (psf->filelength > 0) ? psf->filelength : filelen - psf->fileoffset ;
 			break ;
 
 		case SFM_RDWR :
